@@ -198,7 +198,7 @@ func replayCycle(raw json.RawMessage) (string, string) {
 }
 
 func TestCyclicHistories(t *testing.T) {
-	ev.Rule(chkCycles, "rapid: create + p in 0..3 plain steps, then a cycle of length 1..4 (self-loop: next commitment == consumed commitment; k-cycle: the closing operation re-commits to the commitment consumed k-1 steps earlier) in the update chain or in the recovery chain, optionally a valid non-looping competitor for the closing operation's commitment anchored before or after it, a continuation behind the competitor, and operations re-revealing the revisited key; one recovery-chain case in four closes with a recover that hands the commitment it consumes - or one consumed further back in the recovery chain - on as its next update commitment, followed by an update revealing that key; all key types, both hash algorithms, drawn coordinates and store order; oracle: terminates (step bound), no commitment consumed twice within a chain, state == reference model; non-trivial = the closing operation is validly signed (it would be applied if the rule were absent)")
+	ev.Rule(chkCycles, "rapid: create + p in 0..3 plain steps, then a cycle of length 1..4 (self-loop: next commitment == consumed commitment; k-cycle: the closing operation re-commits to the commitment consumed k-1 steps earlier) in the update chain or in the recovery chain, optionally a valid non-looping competitor for the closing operation's commitment anchored before or after it, a continuation behind the competitor, one time in three a further operation revealing the closing operation's key that is anchored without its delta member (its next commitment cannot be read), and operations re-revealing the revisited key; one recovery-chain case in four closes with a recover that hands the commitment it consumes - or one consumed further back in the recovery chain - on as its next update commitment, followed by an update revealing that key; all key types, both hash algorithms, drawn coordinates and store order; oracle: terminates (step bound), no commitment consumed twice within a chain, state == reference model; non-trivial = the closing operation is validly signed (it would be applied if the rule were absent)")
 	ev.Rapid(t, chkCycles, 500, 5000, func(t *rapid.T) {
 		code := rapid.SampledFrom([]uint64{asm.SHA256, asm.SHA512}).Draw(t, "hash")
 		nk := 0
@@ -294,6 +294,17 @@ func TestCyclicHistories(t *testing.T) {
 			if rapid.Bool().Draw(t, "continuation") {
 				ops = append(ops, mkOp("after-competitor", n, key(), ""))
 			}
+		}
+		if rapid.IntRange(0, 2).Draw(t, "siblingWithoutDelta") == 0 {
+			// a further operation revealing the closing operation's key that is anchored without its delta member: batch
+			// parsing accepts it, its next commitment cannot be read; whatever the library makes of it, the closing
+			// operation next to it stays subject to the rule
+			spec := hist.SignedSpec{Name: "sibling-without-delta", Type: typ, Suffix: s, Code: code, Reveal: cur, NextUpd: key(), Markers: map[string]interface{}{"sibling": "v"},
+				Opt: hist.Opt{Delta: refmodel.DeltaMissing}}
+			if inRecovery {
+				spec.NextRec = key()
+			}
+			ops = append(ops, hist.NewSigned(spec))
 		}
 		if rapid.Bool().Draw(t, "reReveal") {
 			// a second operation revealing the revisited key (would be applied again if the chain looped)
